@@ -24,6 +24,7 @@ import (
 	"time"
 
 	"github.com/ipfs/boxo/bitswap"
+	bsmsg "github.com/ipfs/boxo/bitswap/message"
 	testinstance "github.com/ipfs/boxo/bitswap/testinstance"
 	tn "github.com/ipfs/boxo/bitswap/testnet"
 	"github.com/ipfs/boxo/exchange"
@@ -31,6 +32,8 @@ import (
 	blocks "github.com/ipfs/go-block-format"
 	cid "github.com/ipfs/go-cid"
 	delay "github.com/ipfs/go-ipfs-delay"
+	p2ptestutil "github.com/libp2p/go-libp2p-testing/netutil"
+	"github.com/libp2p/go-libp2p/core/peer"
 	mh "github.com/multiformats/go-multihash"
 
 	"verif/vlib"
@@ -38,19 +41,25 @@ import (
 
 const (
 	// stable-state windows (wall clock is used only to call a state "stable")
-	cleanupStable = 5 * time.Second  // want-list leftover unchanged this long => not cleared
-	deliverStable = 40 * time.Second // no delivery/close/cancel this long (> the 30 s want rebroadcast) => not delivered
+	cleanupStable = 5 * time.Second // want-list leftover unchanged this long => not cleared
+	// not-delivered is decided when nothing (delivery, close, cancel,
+	// placement) happened for:
+	droppedStable = 10 * time.Second // ... and no missing key is in the requester's want-list (nobody is being asked any more)
+	deliverStable = 75 * time.Second // ... while a missing key is still wanted: bitswap re-sends wants older than 30 s on a 30 s timer, so a retry can take 60 s (thorough tier only)
+	quickGiveUp   = 12 * time.Second // quick tier: such a request is inconclusive after this long
 	sampleEvery   = 10 * time.Millisecond
-	caseWatchdog  = 150 * time.Second
+	caseWatchdog  = 300 * time.Second
 )
 
 func main() { vlib.Run("C37", run) }
 
 func run(c *vlib.Ctx) {
-	c.Rule("one case = one virtual network of 2-6 fully connected testinstance nodes (link latency fixed 0/1/5/20 ms or per-link uniform, provider-search delay 1s/200ms/50ms), 4-24 unique blocks (CIDv0 and CIDv1-raw) placed on 0-3 nodes each (some only after the requests started), 1-7 requests {GetBlocks, session.GetBlocks on shared sessions, GetBlock} with duplicate keys started within 0-30 ms on 1-3 requester nodes, cancellation {never, after k deliveries, immediately, timer}; stratum complete has no cancellation and only obtainable keys (avoids the trigger of the known want-list leak), stratum cancel cancels every request, stratum mix has everything. distinct = FNV of the observed history shape (per request: kind, keys, distinct keys, deliveries, how it ended; leftovers); non-trivial = a block was delivered from a remote node and (two requests of one node overlapped in time and shared a key, or a request was cancelled after >= 1 delivery)")
-	c.Cases("complete", c.N(40, 900), func(k *vlib.Case) { netCase(k, "complete") })
-	c.Cases("mix", c.N(48, 1200), func(k *vlib.Case) { netCase(k, "mix") })
-	c.Cases("cancel", c.N(40, 900), func(k *vlib.Case) { netCase(k, "cancel") })
+	c.Rule("one case = one virtual network of 2-6 fully connected testinstance nodes (link latency fixed 0/1/5/20 ms or per-link uniform, provider-search delay 1s/200ms/50ms), 4-24 unique blocks (CIDv0 and CIDv1-raw) placed on 0-3 nodes each (some only after the requests started), 1-7 requests {GetBlocks, session.GetBlocks on shared sessions, GetBlock} with duplicate keys started within 0-30 ms on 1-3 requester nodes, cancellation {never, after k deliveries, immediately, timer}. Strata: complete = no cancellation, only obtainable keys; mix = everything; cancel = every request cancelled; in these three, fetches on one session never share a key (that is the trigger of the known same-session defects); sessshare = two staggered fetches on one session share all keys, nothing cancelled; sesscancel = the same with the first one cancelled. distinct = FNV of the observed history shape (per request: kind, node, keys, distinct keys, deliveries, how it ended); non-trivial = a block was delivered from a remote node and (two requests of one node overlapped in logical time and shared a key, or a request was cancelled after >= 1 delivery)")
+	c.Cases("complete", c.N(24, 500), func(k *vlib.Case) { netCase(k, "complete") })
+	c.Cases("mix", c.N(32, 600), func(k *vlib.Case) { netCase(k, "mix") })
+	c.Cases("cancel", c.N(24, 500), func(k *vlib.Case) { netCase(k, "cancel") })
+	c.Cases("sessshare", c.N(8, 120), func(k *vlib.Case) { netCase(k, "sessshare") })
+	c.Cases("sesscancel", c.N(8, 80), func(k *vlib.Case) { netCase(k, "sesscancel") })
 }
 
 // ---------------------------------------------------------------- script
@@ -128,15 +137,42 @@ func (r *req) snap() state {
 	return state{append([]recv(nil), r.got...), r.cancelled, r.closed, r.cancelHow, r.cancelT, r.tStart, r.tEnd, r.callErr, r.gbErr}
 }
 
+// nodeTracer is the bitswap tracer of one node: it records which blocks the
+// node received from the network (whether or not any request took them).
+type nodeTracer struct {
+	mu   sync.Mutex
+	recv map[string]int
+}
+
+func (t *nodeTracer) MessageReceived(_ peer.ID, m bsmsg.BitSwapMessage) {
+	bl := m.Blocks()
+	if len(bl) == 0 {
+		return
+	}
+	t.mu.Lock()
+	for _, b := range bl {
+		t.recv[b.Cid().KeyString()]++
+	}
+	t.mu.Unlock()
+}
+func (t *nodeTracer) MessageSent(peer.ID, bsmsg.BitSwapMessage) {}
+
+func (t *nodeTracer) received(c cid.Cid) int {
+	t.mu.Lock()
+	defer t.mu.Unlock()
+	return t.recv[c.KeyString()]
+}
+
 type world struct {
-	k      *vlib.Case
-	insts  []testinstance.Instance
-	blks   []*blockInfo
-	reqs   []*req
-	sess   map[[2]int]exchange.Fetcher
-	clock  atomic.Int64
-	events atomic.Int64 // deliveries + closes + cancels: progress fingerprint
-	ctx    context.Context
+	k       *vlib.Case
+	tracers []*nodeTracer
+	insts   []testinstance.Instance
+	blks    []*blockInfo
+	reqs    []*req
+	sess    map[[2]int]exchange.Fetcher
+	clock   atomic.Int64
+	events  atomic.Int64 // deliveries + closes + cancels: progress fingerprint
+	ctx     context.Context
 }
 
 func mkBlock(r *vlib.Rand, caseID string, i int) blocks.Block {
@@ -198,7 +234,7 @@ func netCase(k *vlib.Case, stratum string) {
 	for i := 0; i < nb; i++ {
 		bi := &blockInfo{blk: mkBlock(r, k.ID, i), name: fmt.Sprintf("b%d", i), late: -1}
 		switch {
-		case stratum != "complete" && r.Chance(1, 6):
+		case stratum != "complete" && stratum != "sessshare" && r.Chance(1, 6):
 			// held by nobody
 		case r.Chance(1, 6):
 			// appears late on a node that never requests
@@ -265,7 +301,25 @@ func netCase(k *vlib.Case, stratum string) {
 			}
 		}
 		q.startMs = vlib.Pick(r, []int{0, 0, 0, 1, 3, 10, 30})
-		wantCancel := stratum == "cancel" || (stratum == "mix" && r.Chance(1, 2))
+		wantCancel := stratum == "cancel" || ((stratum == "mix" || stratum == "sesscancel") && r.Chance(1, 2))
+		if stratum == "sessshare" && i >= 2 {
+			break // exactly the two sharing fetches
+		}
+		if (stratum == "sesscancel" || stratum == "sessshare") && i < 2 {
+			// the trigger: two fetches on one session share keys (sesscancel: the
+			// first is cancelled; sessshare: nothing is cancelled, starts staggered)
+			q.kind, q.sess, q.node = "session", 0, requesters[0]
+			wantCancel = i == 0 && stratum == "sesscancel"
+			if stratum == "sessshare" {
+				q.startMs = []int{0, vlib.Pick(r, []int{1, 3, 10, 30})}[i]
+			}
+			if i == 1 {
+				q.keys = append([]int(nil), w.reqs[0].keys...)
+				vlib.Shuffle(r, q.keys)
+			} else if len(q.keys) < 3 {
+				q.keys = append(q.keys, vlib.Pick(r, hot), r.Intn(nb), r.Intn(nb))
+			}
+		}
 		if wantCancel {
 			switch r.Intn(6) {
 			case 0:
@@ -279,6 +333,9 @@ func netCase(k *vlib.Case, stratum string) {
 			}
 		}
 		w.reqs = append(w.reqs, q)
+		if stratum != "sesscancel" && stratum != "sessshare" {
+			w.avoidSharedSessionKeys(r, q)
+		}
 		var ks []string
 		for _, x := range q.keys {
 			ks = append(ks, w.blks[x].name)
@@ -289,6 +346,43 @@ func netCase(k *vlib.Case, stratum string) {
 	ok := vlib.Guard(k, "network-case", caseWatchdog, func() { w.execute(n, d, psd) })
 	if !ok {
 		cancelAll()
+	}
+}
+
+// avoidSharedSessionKeys keeps the strata other than sessshare/sesscancel
+// away from the trigger of the known same-session defects: two fetches on one
+// session never share a key. Conflicting keys of the new request q are replaced
+// by obtainable keys unused on that session (or dropped; a request left
+// without keys becomes a plain GetBlocks with its original keys).
+func (w *world) avoidSharedSessionKeys(r *vlib.Rand, q *req) {
+	if q.kind != "session" {
+		return
+	}
+	orig := append([]int(nil), q.keys...)
+	used := map[int]bool{}
+	for _, o := range w.reqs {
+		if o != q && o.kind == "session" && o.node == q.node && o.sess == q.sess {
+			for _, x := range o.keys {
+				used[x] = true
+			}
+		}
+	}
+	var out []int
+	for _, x := range q.keys {
+		if !used[x] {
+			out = append(out, x)
+			continue
+		}
+		for _, y := range r.Perm(len(w.blks)) {
+			if !used[y] && w.available(q, y) {
+				out = append(out, y)
+				break
+			}
+		}
+	}
+	q.keys = out
+	if len(q.keys) == 0 {
+		q.kind, q.sess, q.keys = "getblocks", -1, orig
 	}
 }
 
@@ -310,13 +404,23 @@ func (w *world) available(q *req, bi int) bool {
 func (w *world) execute(n int, d delay.D, psd time.Duration) {
 	vnet := tn.VirtualNetwork(d)
 	router := mockrouting.NewServer()
-	ig := testinstance.NewTestInstanceGenerator(vnet, router, nil, []bitswap.Option{bitswap.ProviderSearchDelay(psd)})
-	w.insts = ig.Instances(n)
+	nodesCtx, stopNodes := context.WithCancel(context.Background())
+	for i := 0; i < n; i++ {
+		id, err := p2ptestutil.RandTestBogusIdentity()
+		if err != nil {
+			panic(err)
+		}
+		tr := &nodeTracer{recv: map[string]int{}}
+		w.tracers = append(w.tracers, tr)
+		w.insts = append(w.insts, testinstance.NewInstance(nodesCtx, vnet, router.Client(id), id, nil,
+			[]bitswap.Option{bitswap.ProviderSearchDelay(psd), bitswap.WithTracer(tr)}))
+	}
+	testinstance.ConnectInstances(w.insts)
 	defer func() {
 		for _, in := range w.insts {
 			in.Exchange.Close()
 		}
-		ig.Close()
+		stopNodes()
 	}()
 
 	bg := context.Background()
@@ -517,10 +621,19 @@ func (w *world) monitorRequests() {
 			noted5 = true
 			w.k.C.Count("request_stalls_over_5s", 1)
 		}
-		if idle > deliverStable {
+		if idle > quickGiveUp && idle <= deliverStable && w.k.C.Quick() && !w.missingAllDropped() {
+			// still asking peers; the pending retry timers outlast the quick budget
+			w.k.C.Inconclusive(1)
+			w.k.C.Count("stalled_requests_still_wanted_inconclusive", 1)
+			w.k.Logf("inconclusive: open request(s) with wanted but undelivered keys after %s without any event", idle.Round(time.Second))
+			for _, q := range w.reqs {
+				q.doCancel(w, "harness:inconclusive-stall")
+			}
+			lastChange = time.Now()
+		} else if idle > deliverStable || (idle > droppedStable && w.missingAllDropped()) {
 			for _, q := range w.reqs {
 				if st := q.snap(); !st.closed && !st.cancelled {
-					w.reportUndelivered(q, fmt.Sprintf("request still open, no delivery/close for %s", deliverStable))
+					w.reportUndelivered(q, fmt.Sprintf("request still open, no delivery/close/cancel anywhere for %s", idle.Round(time.Second)))
 					q.doCancel(w, "harness:stalled")
 				}
 			}
@@ -530,20 +643,92 @@ func (w *world) monitorRequests() {
 	}
 }
 
-func (w *world) reportUndelivered(q *req, why string) {
+// missing returns the obtainable keys (block indices) an open request has not
+// received yet.
+func (w *world) missing(q *req) []int {
 	got := q.distinctGot()
-	var miss []string
+	seen := map[int]bool{}
+	var out []int
 	for _, x := range q.keys {
-		if w.available(q, x) && !got[w.blks[x].blk.Cid().KeyString()] {
-			miss = append(miss, w.blks[x].name)
+		if w.available(q, x) && !got[w.blks[x].blk.Cid().KeyString()] && !seen[x] {
+			seen[x] = true
+			out = append(out, x)
 		}
 	}
-	sort.Strings(miss)
-	miss = uniq(miss)
+	sort.Ints(out)
+	return out
+}
+
+// missingAllDropped: every open, non-cancelled request misses only keys that
+// are absent from its node's want-list (nothing asks any peer for them).
+func (w *world) missingAllDropped() bool {
+	for _, q := range w.reqs {
+		if st := q.snap(); st.closed || st.cancelled {
+			continue
+		}
+		wl := map[string]bool{}
+		for _, c := range w.insts[q.node].Exchange.GetWantlist() {
+			wl[c.KeyString()] = true
+		}
+		for _, x := range w.missing(q) {
+			if wl[w.blks[x].blk.Cid().KeyString()] {
+				return false
+			}
+		}
+	}
+	return true
+}
+
+func (w *world) reportUndelivered(q *req, why string) {
+	miss := w.missing(q)
+	var names []string
+	class := "not-delivered/" + q.kind
+	var trig, trigRe []string
+	for _, x := range miss {
+		names = append(names, w.blks[x].name)
+		if q.kind != "session" {
+			continue
+		}
+		// discriminating feature: another fetch of the same session that also
+		// wanted the key was cancelled without having received it
+		for _, o := range w.reqs {
+			if o == q || o.kind != "session" || o.node != q.node || o.sess != q.sess {
+				continue
+			}
+			ost := o.snap()
+			has := false
+			for _, y := range o.keys {
+				has = has || y == x
+			}
+			gotIt := o.distinctGot()[w.blks[x].blk.Cid().KeyString()]
+			if has && ost.cancelled && !gotIt {
+				trig = append(trig, fmt.Sprintf("r%d(cancel %s) also wanted %s", o.id, ost.cancelHow, w.blks[x].name))
+			}
+			if has && gotIt {
+				trigRe = append(trigRe, fmt.Sprintf("r%d received %s", o.id, w.blks[x].name))
+			}
+		}
+	}
+	switch {
+	case len(trig) > 0:
+		// a sibling fetch of the same session wanting the key was cancelled
+		class = "not-delivered/same-session-cancel"
+	case len(trigRe) > 0:
+		// a sibling fetch of the same session received the key; this one asked again
+		class = "not-delivered/same-session-rerequest"
+	}
 	inst := w.insts[q.node].Exchange
-	w.k.Fail("not-delivered/"+q.kind, "every requested block held by another connected node is delivered (stable state)",
+	w.k.Fail(class, "every requested block held by another connected node is delivered (stable state)",
 		"all obtainable keys delivered to r"+fmt.Sprint(q.id),
-		fmt.Sprintf("%s; missing %v; wantlist=%s", why, miss, w.namesOf(inst.GetWantlist())))
+		fmt.Sprintf("%s; r%d (%s sess=%d) misses %v; same-session cancelled fetches: %v; same-session fetches that received the key: %v; node received the missing blocks %v time(s); node want-list=%s", why, q.id, q.kind, q.sess, names, trig, trigRe, w.recvCounts(q.node, miss), w.namesOf(inst.GetWantlist())))
+}
+
+func (w *world) recvCounts(node int, blks []int) []int {
+	var out []int
+	for _, x := range blks {
+		out = append(out, w.tracers[node].received(w.blks[x].blk.Cid()))
+	}
+	return out
 }
 
 func uniq(s []string) []string {
@@ -701,7 +886,8 @@ func (w *world) checkCleanup(phase string, already map[string]bool) map[string]b
 		for _, c := range cs {
 			out[fmt.Sprint(node, "/", c.KeyString())] = true
 			var feats []string
-			undeliveredCancelled, deliveredEverywhere, inNormal := false, true, false
+			undeliveredCancelled, deliveredSomewhere := false, false
+			sessWanters, sessCancelled := map[int]int{}, map[int]bool{}
 			var hist []string
 			for _, q := range w.reqs {
 				if q.node != node {
@@ -716,28 +902,40 @@ func (w *world) checkCleanup(phase string, already map[string]bool) map[string]b
 				}
 				st := q.snap()
 				got := q.distinctGot()[c.KeyString()]
-				if !got {
-					deliveredEverywhere = false
-					if st.cancelled {
-						undeliveredCancelled = true
-					}
+				if got {
+					deliveredSomewhere = true
+				} else if st.cancelled {
+					undeliveredCancelled = true
 				}
-				if !st.cancelled {
-					inNormal = true
+				if q.kind == "session" {
+					sessWanters[q.sess]++
+					if st.cancelled && !got {
+						sessCancelled[q.sess] = true
+					}
 				}
 				hist = append(hist, fmt.Sprintf("r%d(%s sess=%d delivered=%v cancelled=%v how=%s ndeliv=%d)", q.id, q.kind, q.sess, got, st.cancelled, st.cancelHow, len(st.got)))
 			}
+			// class = clause + features of the recorded history of this CID on this node
+			nrecv := w.tracers[node].received(c)
 			class := "want-not-cleared/other"
 			switch {
+			case nrecv > 0:
+				// the block itself reached this node (the tracer saw it), with or
+				// without a request still listening for it
+				class = "want-not-cleared/block-received"
+			case deliveredSomewhere:
+				class = "want-not-cleared/delivered-locally"
 			case undeliveredCancelled:
 				class = "want-not-cleared/after-cancel"
-			case deliveredEverywhere:
-				class = "want-not-cleared/delivered"
+				for sid, nw := range sessWanters {
+					if nw >= 2 && sessCancelled[sid] {
+						class = "want-not-cleared/after-cancel/same-session-rewant"
+					}
+				}
 			}
 			if phase == "sessions-closed" {
 				class += "/only-after-session-close"
 			}
-			_ = inNormal
 			kind := "want-have/broadcast"
 			if wb[c.KeyString()] {
 				kind = "want-block"
@@ -745,7 +943,7 @@ func (w *world) checkCleanup(phase string, already map[string]bool) map[string]b
 			feats = append(feats, kind)
 			k.Fail(class, "after completion or cancel the requester's want-list holds none of the requested CIDs (stable state, phase "+phase+")",
 				fmt.Sprintf("node %d want-list without %s", node, w.nameOf(c)),
-				fmt.Sprintf("%s still listed as %s, unchanged over %d samples / %s; requests for it on node %d: %s; full wantlist=%s", w.nameOf(c), strings.Join(feats, ","), samples, time.Since(lastChange).Round(time.Millisecond), node, strings.Join(hist, " "), w.namesOf(inst.GetWantlist())))
+				fmt.Sprintf("%s still listed as %s, unchanged over %d samples / %s; the node received this block %d time(s) from the network; requests for it on node %d: %s; full wantlist=%s", w.nameOf(c), strings.Join(feats, ","), samples, time.Since(lastChange).Round(time.Millisecond), nrecv, node, strings.Join(hist, " "), w.namesOf(inst.GetWantlist())))
 		}
 	}
 	return out
@@ -799,6 +997,16 @@ func (w *world) finishEvidence() {
 				}
 			}
 		}
+	}
+	for _, t := range w.tracers {
+		t.mu.Lock()
+		for _, n := range t.recv {
+			k.C.Count("blocks_received_by_nodes", int64(n))
+			if n > 1 {
+				k.C.Count("blocks_received_again_by_a_node", int64(n-1))
+			}
+		}
+		t.mu.Unlock()
 	}
 	sort.Strings(parts)
 	k.SetShape(strings.Join(parts, ";"))
